@@ -75,6 +75,12 @@ class RandomShim:
         pass
 
 
+# the ten members of a timing table (the harness' own statement of what "the complete table" is)
+CONFIG_MEMBER_NAMES = ["DISCOVERY_INITIAL_TIMEOUT_IN_SECONDS", "DISCOVERY_TIMEOUT_IN_SECONDS", "TASK_TIDY_FREQUENCY_IN_SECONDS", "PING_FREQUENCY_IN_SECONDS",
+                       "PING_DEVICE_NOT_RESPONDING_TIMEOUT_IN_SECONDS", "FACADE_UPDATE_FREQUENCY_IN_SECONDS", "SPA_PACK_REFRESH_FREQUENCY_IN_SECONDS",
+                       "PROTOCOL_TIMEOUT_IN_SECONDS", "PROTOCOL_RETRY_COUNT", "PAUSE_BETWEEN_RETRIES_IN_SECONDS"]
+
+
 class Seams:
     """Install / restore all patches for one run."""
 
@@ -135,7 +141,7 @@ class Seams:
     def reset_globals(self, tables: Optional[Dict[str, Dict[str, float]]] = None) -> None:
         """Reset config globals; optionally install per-run active/idle timing tables."""
         cfgmod = importlib.import_module("geckolib.config")
-        members = list(cfgmod.CONFIG_MEMBERS)
+        members = list(CONFIG_MEMBER_NAMES)      # (the harness' own list: never iterate the library's, it may be a one-shot iterable)
         saved = {
             "active": {m: getattr(cfgmod._GeckoActiveConfig, m) for m in members},
             "idle": {m: getattr(cfgmod._GeckoIdleConfig, m) for m in members},
